@@ -117,11 +117,18 @@ func atomicPrograms(r *rand.Rand, nops int) []*tprog {
 	// Pointer[T] and unsafe.Pointer functions
 	t.pre.WriteString("var ptrs = []*int{nil, new(int), new(int), new(int), new(int)}\n\nfunc pidx(p *int) int {\n\tfor i, q := range ptrs {\n\t\tif p == q {\n\t\t\treturn i\n\t\t}\n\t}\n\treturn -1\n}\n\n// a zero unsafe.Pointer and unsafe.Pointer((*int)(nil)) are both index 0 (their representations\n// differ under GopherJS; that is a conversion matter outside this property)\nfunc uidx(p unsafe.Pointer) int {\n\tif p == nil {\n\t\treturn 0\n\t}\n\treturn pidx((*int)(p))\n}\n\n")
 	ptrEval := func(load, store, swap, cas, wrap string) string {
-		return "c := rg.next()\n\t\tx, y := ptrs[(c>>8)%5], ptrs[(c>>16)%5]\n\t\tres, ok := -2, false\n\t\top := \"\"\n\t\tswitch c % 4 {\n\t\tcase 0:\n\t\t\tres = " + wrap + "(" + load + ")\n\t\t\top = \"Load\"\n\t\tcase 1:\n\t\t\t" + store + "\n\t\t\top = \"Store\"\n\t\tcase 2:\n\t\t\tres = " + wrap + "(" + swap + ")\n\t\t\top = \"Swap\"\n\t\tcase 3:\n\t\t\tok = " + cas + "\n\t\t\top = \"CAS\"\n\t\t}\n\t\tstate := " + wrap + "(" + load + ")"
+		pick := "ptrs[(c>>8)%5], ptrs[(c>>16)%5]"
+		if wrap == "uidx" {
+			// nil pointers converted to unsafe.Pointer are not nil under GopherJS (a conversion
+			// matter outside this property, reported separately): only non-nil pointers here;
+			// nil is covered by atomic.Pointer[T]
+			pick = "ptrs[1+(c>>8)%4], ptrs[1+(c>>16)%4]"
+		}
+		return "c := rg.next()\n\t\tx, y := " + pick + "\n\t\tres, ok := -2, false\n\t\top := \"\"\n\t\tswitch c % 4 {\n\t\tcase 0:\n\t\t\tres = " + wrap + "(" + load + ")\n\t\t\top = \"Load\"\n\t\tcase 1:\n\t\t\t" + store + "\n\t\t\top = \"Store\"\n\t\tcase 2:\n\t\t\tres = " + wrap + "(" + swap + ")\n\t\t\top = \"Swap\"\n\t\tcase 3:\n\t\t\tok = " + cas + "\n\t\t\top = \"CAS\"\n\t\t}\n\t\tstate := " + wrap + "(" + load + ")"
 	}
 	pshow := `op + " x=" + itoa(pidx(x)) + " old=" + itoa(pidx(y)) + " -> " + itoa(res) + " " + btoa(ok) + " state=" + itoa(state)`
 	t.block("atomic.Pointer[T]-type/seq", loop("var v atomic.Pointer[int]"), ptrEval("v.Load()", "v.Store(x)", "v.Swap(x)", "v.CompareAndSwap(y, x)", "pidx"), "d.wi(res)\n\t\td.wb(ok)\n\t\td.wi(state)", pshow, nops/9+1, 1)
-	t.block("atomic.Pointer-functions/seq", loop("var v unsafe.Pointer"), ptrEval("atomic.LoadPointer(&v)", "atomic.StorePointer(&v, unsafe.Pointer(x))", "atomic.SwapPointer(&v, unsafe.Pointer(x))", "atomic.CompareAndSwapPointer(&v, unsafe.Pointer(y), unsafe.Pointer(x))", "uidx"), "d.wi(res)\n\t\td.wb(ok)\n\t\td.wi(state)", pshow, nops/9+1, 1)
+	t.block("atomic.Pointer-functions/seq", loop("v := unsafe.Pointer(ptrs[1])"), ptrEval("atomic.LoadPointer(&v)", "atomic.StorePointer(&v, unsafe.Pointer(x))", "atomic.SwapPointer(&v, unsafe.Pointer(x))", "atomic.CompareAndSwapPointer(&v, unsafe.Pointer(y), unsafe.Pointer(x))", "uidx"), "d.wi(res)\n\t\td.wb(ok)\n\t\td.wi(state)", pshow, nops/9+1, 1)
 	// Value incl. its panics
 	t.pre.WriteString(`func valOp(v *atomic.Value, op int, x, y interface{}) (res string) {
 	defer func() {
